@@ -47,11 +47,28 @@ class RigWorld(World):
         ch = self.ch
         hilo = len(st.hand_types) > 1
         badugi = any('Badugi' in h.__name__ for h in st.hand_types)
+        if not hasattr(self, 'mirror'):
+            # mirror tables: player 1 is dealt, card for card, the ranks of player 0 in ONE suit where the deck allows -
+            # exact ties between a single-suited hand and a mixed one (split pots, equal lows, flush against no flush)
+            self.mirror = ch.chance('rig.mirror', 1, 6)
+            self.mirror_suit = 'cdhs'[ch.pick('rig.mirror.suit', 4)]
         for _ in range(k):
             if not pool:
                 return k
             pick = None
             r = ch.pick('rig.mode', 4)
+            if self.mirror and kind == 'hole' and player_index == 1:
+                j = len(st.hole_cards[1]) + len(out)
+                src = [c for c in st.hole_cards[0] if c]
+                if j < len(src):
+                    same = [c for c in pool if c.rank == src[j].rank]
+                    suited = [c for c in same if str(c.suit.value) == self.mirror_suit]
+                    if suited or same:
+                        pick = (suited or same)[0]
+                        pool.remove(pick)
+                        out.append(pick)
+                        self.ctx.count('mirrored_cards')
+                        continue
             if kind == 'hole' and r in (0, 1):
                 # share a rank with another player's cards -> exact ties, counterfeits
                 others = [c for i in range(st.player_count) if i != player_index for c in st.hole_cards[i] if c] + out
@@ -319,9 +336,17 @@ def run(ch, ctx):
     world = None
     try:
         dealer = ch.choice('c02.dealer', ('rigged', 'rigged', 'engine', 'explicit'))
-        world = RigWorld(ch, ctx, cfg, [mon], run_key=run_key_of(ch), dealer=dealer,
+        mucks = ch.chance('c02.mucks', 1, 4)
+        partial = ch.chance('c02.partial', 1, 4)
+        monitors = [mon]
+        if not mucks and not partial:
+            # nobody gives up voluntarily in this run, so every muck and kill is the engine's: the strongest hand among
+            # the players who did not fold must then still be paid (settlement with every such player's full hand)
+            from .c12 import TableAll
+            monitors.append(TableAll(cfg, prefix='C02.table_all'))
+        world = RigWorld(ch, ctx, cfg, monitors, run_key=run_key_of(ch), dealer=dealer,
                          profile=ch.choice('c02.profile', ('shover', 'aggressive', 'aggressive', 'balanced', 'passive')),
-                         muck_num=1 if ch.chance('c02.mucks', 1, 4) else 0, partial_show=ch.chance('c02.partial', 1, 4),
+                         muck_num=1 if mucks else 0, partial_show=partial,
                          force_show=badugi_focus and ch.chance('c02.table_all', 1, 2))     # everybody tables: a hand the
         #                  engine cannot evaluate then shows in the settlement instead of being mucked away (C12's business)
         world.run()
